@@ -38,10 +38,12 @@ CLAIMS = {
 OPTIONAL_CLAIMS = ('C10.runs',)
 GOALS = {'quick': ['structure changed with an update in flight',
                    'step created by an operation', 'process deleted',
-                   'engine built from a Composite'],
+                   'engine built from a Composite',
+                   'operations issued through ports wired with ".."'],
          'thorough': ['structure changed with an update in flight',
                       'step created by an operation', 'process deleted',
-                      'engine built from a Composite']}
+                      'engine built from a Composite',
+                      'operations issued through ports wired with ".."']}
 STUBS = ['pure Grow processes / Der steps logging their invocations together '
          'with a liveness check by own traversal; actor process issuing the '
          'history; Engine subclass that only brackets run_steps to mark '
@@ -156,13 +158,18 @@ def body(ctx, cfg):
     sink = stubs.reset_sink()
     issuer = cfg.get('issuer', 'process')
     actor_last = ctx.flag('actor_last') if issuer == 'process' else False
+    actor_below = ctx.flag('actor_below') if (
+        issuer == 'process' and len(kinds) == 1) else False
     ctx.note('actor_last', actor_last)
     ctx.note('issuer', issuer)
     e = hist.build(ctx, kinds, cfg['flavor'], ts_a, ts_g, d,
                    emitter={'type': 'vsym_rec', 'tag': 'A'},
                    actor_last=actor_last, issuer=issuer,
                    first_flavor=cfg.get('first_flavor'),
-                   via_composite=bool(cfg.get('via_composite')))
+                   via_composite=bool(cfg.get('via_composite')),
+                   actor_below=actor_below)
+    if actor_below:
+        ctx.goal('operations issued through ports wired with ".."')
     if cfg.get('via_composite'):
         ctx.goal('engine built from a Composite')
     H = 2 * len(kinds) + 1
